@@ -140,10 +140,10 @@ def exhaustive_1d(maxlen=6, rng=8, steps=3, masklen=5, mrng=4, iadd=True, conver
 MUT = ("setscalar", "setscalarmask", "setvector", "setvectormask", "iadds", "iaddv")
 
 
-def random_program(rng, nops=20, iadd=True, convert=True, typed=False):
+def random_program(rng, nops=20, iadd=True, convert=True, typed=False, quirks=("slice", "ifelse")):
     """One random program.  A SpecExec shadow is used only to pick plausible arguments (right lengths most
     of the time); the program stays well-formed even when the shadow is wrong about the real code."""
-    sp = SpecExec(quirks=True)
+    sp = SpecExec(quirks=set(quirks))
     lines = []
     ints, foreign = set(), set()       # ids of IntArrays (alloci) / of views of another class (convert and derived)
 
@@ -271,10 +271,10 @@ def random_program(rng, nops=20, iadd=True, convert=True, typed=False):
     return lines
 
 
-def random_programs(seed, count, nops=20, iadd=True, convert=True, typed=False):
+def random_programs(seed, count, nops=20, iadd=True, convert=True, typed=False, quirks=("slice", "ifelse")):
     rng = random.Random(seed)
     for _ in range(count):
-        yield "random", random_program(rng, rng.randint(6, nops), iadd, convert, typed)
+        yield "random", random_program(rng, rng.randint(6, nops), iadd, convert, typed, quirks)
 
 
 def boolify(programs):
